@@ -361,7 +361,21 @@ func c04Strata() []*gast.Grammar {
 		{Name: "Key", Expr: act(gast.Plus(gast.Cl(gast.Chars("xy"))), 3)},
 		{Name: "KEY", Expr: act(gast.L("!"), 4)},
 	}}
-	return []*gast.Grammar{g1, g2, g3}
+	// a leaf rule that is one character class, referenced several times from one rule, one of the
+	// copies standing in a choice of one-rune literals (the optimizer merges that copy in place); the
+	// same with Unicode classes and with a caseless class
+	az := func() *gast.Expr { return gast.Cl(&gast.ClassSpec{Ranges: [][2]rune{{'a', 'z'}}}) }
+	g4 := &gast.Grammar{Rules: []*gast.Rule{
+		{Name: "Ident", Expr: act(gast.S(gast.Ref("Letter"), gast.Star(gast.C(gast.Ref("Letter"), gast.L("_"), gast.Ref("Digit"))), gast.NotE(gast.Ref("Letter"))), 1)},
+		{Name: "Letter", Expr: az()},
+		{Name: "Digit", Expr: gast.Cl(&gast.ClassSpec{Ranges: [][2]rune{{'0', '9'}}})},
+	}}
+	g5 := &gast.Grammar{Rules: []*gast.Rule{
+		{Name: "S", Expr: gast.S(gast.Star(gast.C(gast.S(gast.Ref("U"), gast.C(gast.Ref("U"), gast.L("-"), gast.Ref("K"))), gast.S(gast.Ref("K"), gast.Ref("K")), gast.C(gast.L("+"), gast.Ref("K"), gast.Ref("U")))), gast.Star(gast.Dot()))},
+		{Name: "U", Expr: gast.Cl(&gast.ClassSpec{UClasses: []string{"Lu"}, Chars: []rune("_")})},
+		{Name: "K", Expr: gast.Cl(&gast.ClassSpec{Chars: []rune("kq"), IgnoreCase: true})},
+	}}
+	return []*gast.Grammar{g1, g2, g3, g4, g5}
 }
 
 // c04Raw: hand-written texts. (a) well-typed code blocks that use Go's predeclared identifiers the
